@@ -1019,10 +1019,20 @@ func (context *layoutContext) makeAllPages(rootBox bo.BlockLevelBoxITF, html *tr
 				context.brokenOutOfFlowAfter = append(context.brokenOutOfFlowAfter, nil)
 			}
 			context.brokenOutOfFlowAfter[i] = sortedBrokenBoxes(context.brokenOutOfFlow)
+			// same thing for the footnotes reported to the following pages
+			for len(context.reportedFootnotesAfter) <= i {
+				context.reportedFootnotesAfter = append(context.reportedFootnotesAfter, nil)
+			}
+			context.reportedFootnotesAfter[i] = append([]Box(nil), context.reportedFootnotes...)
 		} else {
 			logger.ProgressLogger.Printf("Step 5 - Creating layout - Page %d (up-to-date)", i+1)
 			resumeAt = context.pageMaker[i+1].InitialResumeAt
 			reportedFootnotes = nil
+			if i < len(context.reportedFootnotesAfter) {
+				// restore the footnotes that this page reported to the following ones
+				reportedFootnotes = append([]Box(nil), context.reportedFootnotesAfter[i]...)
+			}
+			context.reportedFootnotes = reportedFootnotes
 			out = append(out, pages[i])
 			// restore the out-of-flow boxes that this page left broken
 			context.brokenOutOfFlow = make(map[Box]brokenBox)
